@@ -8,8 +8,9 @@ Streams (real code vs Lean model `Model/Persist.lean` vs executable specificatio
          FilteredFileAdapter: after every step the loaded policy of every type, is_filtered(), the role links
          (get_roles of every name), the result / exception and the file's text are compared; after every
          successful load enforce() on 27 requests is compared with a fresh enforcer holding exactly the specified subset
-  out    the same with files / filters outside the hypotheses of the proved theorem (bracketed commas and a leading
-         comma before filtered positions, filters longer than the rule — F20; raising lines; short grouping rules)"""
+  out    the same with hard files / filters (bracketed commas and a leading comma before filtered positions, filters
+         longer than the rule, padded filter values — what finding F20 was about, ordinary inputs since its repair);
+  raise  files with raising lines / short grouping rules"""
 import itertools
 import os
 
@@ -23,7 +24,7 @@ LEVEL = "proof"
 ASSUMPTIONS = [
     "the file system and UTF-8 decoding are trusted: the policy file is its decoded text; files are real temp files outside the repository",
     "models without priority columns (sort_policies_by_priority is the identity) and with the default auto_build_role_links = True",
-    "filtered_exact is proved on the domain where the adapter's naive split(',') sees the loader's fields and the filter is not longer than the rule (naiveOK); outside it the real code is probed against the model and differences from the property are reported under the signature of F20",
+    "filtered_exact is proved for every file, filter and memory (F20 repaired: filter_line tokenizes like load_policy_line and a filter longer than the rule skips it only for a non-blank extra value); every generated file, including bracketed commas, leading commas and long filters, is judged against the property",
     "after a failed FULL load memory is what it was, so the property keeps deciding the following saves (F26a fixed, F26b open); what a failed FILTERED load leaves in memory is not judged (see C11), only compared with the model",
     "filter values are compared modulo surrounding blanks, as the blankness test itself is",
 ]
@@ -82,6 +83,7 @@ FL_LINES = [
     "g", "g, v1, v2, v1", "p2, v1, v2", "g2, v1, v2", "# p, v1, v2", "x, v1", "p, V1, v2, v1", "p, v1 , v2", "p,  v1,v2 ,v1", "p, , v2, v1", "p, v1, , v1",
     "g, , v2", "p, f(v1, v2), v1, v2", "p, v1, [v2, v1], v1", ", p, v1, v2, v1", "p, v1, v2, v1,", "p,,,", "g,,", "pp, v1, v2", "p , v2, v2, v2",
     "p, v1\xa0, v2, v1", "p, v1, v2, v1, v2, v1", "g, v1, v2, v3, v1", "p, (v1, v2, v1", "g, v1), v2",
+    "", "# v1)", "#(", ",p,v1,v2", "p, [v1, v2], v1, v2", "g, (v1, v2), v2", "(p, v1", "p, v1, v2)",
 ]
 
 
@@ -103,7 +105,7 @@ def run_fl(part, casbin):
         except Exception as ex:  # noqa
             impl = fmt_exc(ex)
         part.evaluations += 1
-        part.count("fl:" + ("in-domain" if dom else "outside") + ":" + impl)
+        part.count("fl:" + impl)
         if impl == "T" and dom:
             part.nontrivial.add(hash((line, tuple(P), tuple(G))))
         if impl != model:
@@ -115,7 +117,7 @@ def run_fl(part, casbin):
             if impl != spec and any(x.strip() for x in P + G):
                 part.violation(
                     {
-                        "signature": "filter_line:predicate" if dom else "F20:filter-split",
+                        "signature": "filter_line:predicate",
                         "what": f"filter_line({line!r}, [{P!r}, {G!r}]) = {impl}: the line is {'skipped' if impl == 'T' else 'kept'}, but its leading fields "
                         + ("do" if spec == "F" else "do not") + " equal every non-blank filter value",
                         "kind_of_case": "filter_line",
@@ -132,7 +134,7 @@ def run_fl(part, casbin):
 
 
 def gen_file(rng, mname, mode):
-    """policy text. mode: 'in' = inside the theorem's domain, 'out' = F20 territory, 'raise' = with raising lines / short g rules"""
+    """policy text. mode: 'in' = plain files, 'out' = hard files (what F20 was about), 'raise' = with raising lines / short g rules"""
     dom = mname == "dom"
     ls = []
     n = rng.choice([0, 1, 2, 3, 4, 6, 8])
@@ -148,7 +150,7 @@ def gen_file(rng, mname, mode):
         elif r < 0.88 and not dom and mname != "nog":
             l = ["g2", v(), v()]
         elif r < 0.92:
-            ls.append(rng.choice(["# comment, v1", "", "  ", "x, v1, v2", "pp, v1", "#p, v1, v1, v1"]))
+            ls.append(rng.choice(["# comment, v1", "", "  ", "x, v1, v2", "pp, v1", "#p, v1, v1, v1", "# v1) not a rule"]))
             continue
         else:
             l = ["p", v(), v(), v(), v()]  # longer than the definition
@@ -404,7 +406,7 @@ def eval_history(casbin, part, mode, mname, text, ops, ans, tmp):
                     found.append(
                         dict(
                             case,
-                            signature=f"{op[0]}:{which}" if dom else "F20:filter-split",
+                            signature=f"{op[0]}:{which}",
                             what=f"step {i}: {op[0]}({op[1] if len(op) > 1 else ''}) on file {text!r}: loaded {show(got)}; the filtered subset is {show(exp)}",
                             step=i,
                             expected=list(exp),
@@ -582,8 +584,8 @@ def _stage(ctx, res, nin, nout, nraise):
     pc.merge(res, pc.pmap(hist_job, jobs))
     res.exhaustive = True
     res.rule = (
-        f"filter_line on {len(FL_LINES)} lines x every filter over {FVALS}^<=3 x ^<=3 (exhaustive); {nin} generated policy files inside the theorem's domain, {nout} outside "
-        f"(F20 territory) and {nraise} with raising lines, each with a random sequence (<= 4) of load_filtered_policy / load_increment_filtered_policy / load_policy / "
+        f"filter_line on {len(FL_LINES)} lines x every filter over {FVALS}^<=3 x ^<=3 (exhaustive); {nin} generated plain policy files, {nout} hard ones "
+        f"(bracketed / leading commas before filtered positions, filters longer than the rule, padded values) and {nraise} with raising lines, each with a random sequence (<= 4) of load_filtered_policy / load_increment_filtered_policy / load_policy / "
         "save_policy / adapter.save_policy (a quarter of the histories with a window in which the policy file is missing) on Enforcer+FilteredFileAdapter over real temp files (models rbac2, dom, nog); after every step policy of every type, is_filtered, "
         "links (get_roles), result and file text are compared, and after every successful load all 27 requests over the names are decided by enforce() and by a fresh enforcer holding exactly the specified subset; non-trivial = a load leaving rules in memory / a refused save"
     )
